@@ -3,7 +3,9 @@ import PepperModel.Des
 # C03 — lemmas about the `.des` document, its semantics and the design of the object tables
 
 1. the four line kinds of a component / signal block (`*Lines_compDoc`, `*Lines_signalDoc`); the `done` set of
-   `System.output_nupack` (`dedupEntries_sub` / `_cover` / `_keys_nodup` / `_sublist` / `_first` / `_eq_self`);
+   `System.output_nupack` (`dedupEntries_sub` / `_cover` / `_keys_nodup` / `_sublist` / `_first` / `_eq_self`); the
+   `-_rc` suffix of the complementary connector of a port bound both ways (`RcNamed`, `rcSuffix_cases`,
+   `rcSuffix_of_consistent`, `connTail_inj`, `connTails_nodup_iff`; repair F17b);
 2. base pairs of a duplex `(ⁿ+)ⁿ` (`pairs_duplex`) and what a duplex over `X Y` says (`duplex_sat`);
 3. the signal connector over any complement-involutive base type (`gadget_forces`, `gadget_holds`,
    `signal_gadget_equiv`);
